@@ -170,6 +170,32 @@ theorem admissible_spec (p : Pred) (cap : Cap) (kept : List Ev) (s : List Nat) :
   · rintro ⟨⟨h1, h2⟩, h3, h4⟩; exact ⟨h3, h1, h2, h4⟩
   · rintro ⟨h3, h1, h2, h4⟩; exact ⟨⟨h1, h2⟩, h3, h4⟩
 
+/-! ### patterns whose last step is `all` (consistent filter) -/
+
+/-- `A -> all B` on `A` followed by any events that do not start a new run: an event reports the closure so far
+(`matchT`: A and every B kept up to and including this one, alias b = this event) exactly when it is a B that
+passes the filter (`outT`); any other event reports nothing and leaves the closure open (since the repair
+`fix: … trailing all …`).  Successive reports carry strictly longer stacks, hence are pairwise distinct.
+No cap is consulted on this path (`keepT`) — the known finding `C03-trailing-all-uncapped`. -/
+theorem trailing_reports_each_extension (pa pb : Option Pred) (cfg : Cfg) (eA : Ev) (es : List Ev)
+    (hcons : ∀ p, pb = some p → selfRef (some 1) p = false)
+    (hp : cfg.partitioned = false) (hm : 1 ≤ cfg.maxRuns)
+    (hA : eA.ty = 0) (hpa : predOk pa eA [] = true) (he : ∀ e ∈ es, e.ty ≠ 0) :
+    emittedAll (compile (trailSteps pa pb)) cfg (eA :: es) = some ([] :: outsT pb eA [] es) ∧
+    ((outsT pb eA [] es).flatten.flatten.map (·.stack.length)).Pairwise (· < ·) := by
+  have hnfa : compile (trailSteps pa pb) = nfaTrail pa pb := by
+    cases pb with
+    | none => exact compile_trail_nofilter pa
+    | some p => exact compile_trail_consistent pa p (hcons p rfl)
+  exact ⟨by rw [hnfa]; exact emitted_trail pa pb cfg eA es hp hm hA hpa he, (outsT_stacks pb eA es []).2⟩
+
+/-- reading of `outT` / `keepT`: with a consistent filter the decision for an event only looks at the event and A -/
+theorem trailing_decision (pb : Option Pred) (eA e : Ev) (kept : List Ev)
+    (hcons : ∀ p, pb = some p → selfRef (some 1) p = false) :
+    outT pb eA kept e = (if e.ty = 1 ∧ predOk pb e [(0, eA)] = true then [[matchT eA (kept ++ [e]) e]] else []) ∧
+    keepT pb eA kept e = (if e.ty = 1 ∧ predOk pb e [(0, eA)] = true then kept ++ [e] else kept) := by
+  simp only [outT, keepT, predOk_capOf pb e eA kept hcons, and_self]
+
 /-! ### (c) caps, for all cap values ≥ 1 and all streams -/
 
 /-- On every stream (not only `A B^n C`) and every pattern of `Event` / `all Event` steps: no capture keeps
